@@ -184,11 +184,16 @@ def _digest(res, r, text, genmap, b2c):
                 res.fn_times.append({"function": fb.get("function"), "ms": fb.get("time"), "success": fb.get("success")})
     errs = [d for d in r["diags"] if d.level == "error"]
     fails, frontend, rlim = [], [], []
+    vr0 = (js or {}).get("verification-results", {})
+    # verification ran to completion iff Verus reports counts and no VIR/rustc error: then every error is a proof failure
+    ran = js is not None and not vr0.get("encountered-vir-error", True) and (vr0.get("verified", 0) + vr0.get("errors", 0)) > 0
     for d in errs:
         if d.message.startswith("aborting due to"):
             continue
         c = classify(d, text, genmap, b2c)
         c["rendered"] = d.rendered
+        if c["kind"] == "frontend" and ran:
+            c["kind"] = "proof"
         if c["kind"] == "frontend":
             frontend.append(c)
         elif c["kind"] == "rlimit":
